@@ -734,8 +734,7 @@ let block_gen seed count =
         | 1 -> Printf.sprintf "RPUSH:%d:%s" (pick keys) (String.concat "." (List.init (1 + rnd 3) (fun i -> string_of_int (1000 * (t + 1) + i))))
         | 2 -> Printf.sprintf "LPOP:%d" (pick keys)
         | 3 -> Printf.sprintf "RPOP:%d" (pick keys)
-        | 4 -> if nkeys >= 2 then (let a = pick keys in let b = pick (List.filter (fun k -> k <> a) keys) in Printf.sprintf "MOVE:%d:%d" a b)
-               else Printf.sprintf "RPUSH:%d:%d" (pick keys) (1000 * (t + 1))
+        | 4 -> let a = pick keys in let b = pick keys in Printf.sprintf "MOVE:%d:%d" a b   (* a = b: rotation *)
         | 5 | 7 -> Printf.sprintf "BLPOP:%s:%d" (String.concat "." (List.map string_of_int (somekeys ()))) (pick [0; 50; 50; 100])
         | _ -> Printf.sprintf "BRPOP:%s:%d" (String.concat "." (List.map string_of_int (somekeys ()))) (pick [0; 50; 50; 100])) in
     let lspec = bj (List.map (fun (k, vs) -> Printf.sprintf "%d=%s" k (String.concat "." (List.map string_of_int vs))) lists) in
